@@ -84,7 +84,9 @@ def graphs() -> Any:
 
 def parts(tier: str) -> List[Part]:
     if tier == "thorough":
-        return [Part("graphs", "given", shards=16, examples=15000, strategy=graphs, soft_deadline_s=3000)]
+        return [Part("graphs", "given", shards=16, examples=15000, strategy=graphs, soft_deadline_s=3000),
+                # the same strategy driven by libFuzzer (atheris), guided by branch coverage of the `taskiq` package
+                Part("graphs_cov", "covguided", shards=4, examples=15000, strategy=graphs, soft_deadline_s=3000)]
     return [Part("graphs", "given", shards=8, examples=1200, strategy=graphs, soft_deadline_s=150)]
 
 
